@@ -132,6 +132,21 @@ def whole_messages(ctx, n_cases, n_values):
                     res.count("be_whole_message_calls")
                     ccommon.judge_std_reply(ctx, mt, r, config, {"wire": True}, wit)
                 os.unlink(exe)
+            # the reverse direction of the detection: this LITTLE-endian host must be recognised as such in other include contexts too
+            # (prefix headers, unity builds with libc includes first), on native storage
+            if k < (2 if ctx.quick else 12):
+                for config in (["gcc-O0-prefix-header", "gcc-O2-single-libc-first"] if ctx.quick else ["gcc-O0-prefix-header", "gcc-O2-single-libc-first", "clang-O1-prefix-header"]):
+                    try:
+                        exe = sut_c.build(d, root, config)
+                    except sut_c.BuildError as e:
+                        res.count("skipped_build_error")
+                        res.observe("build_error_classes", config + ": " + ccommon.classify_build_error(e.log))
+                        continue
+                    sess = ccommon.CSession(exe, dg, config, "std")
+                    for mt, r in zip(meta, sess.run(reqs)):
+                        res.count("le_host_other_include_context_calls")
+                        ccommon.judge_std_reply(ctx, mt, r, config, {"wire": True}, wit)
+                    os.unlink(exe)
         finally:
             shutil.rmtree(d, ignore_errors=True)
 
@@ -409,7 +424,7 @@ if __name__ == "__main__":
         required_counters=["be_grid_probes", "be_whole_message_calls", "positive_control_functional", "windows:BE", "wire_accesses:BE",
                            "positive_control_wide_wire_accesses_LE", "struct_accesses:big", "struct_accesses:both+BP_BIG_ENDIAN",
                            "positive_control_partial_field_accesses_little", "opt_calls:big", "opt_calls:both+BP_BIG_ENDIAN",
-                           "emu_be_grid_probes", "emu_be_grid_signed_nonstandard_decodes_judged", "emu_be_std_calls", "emu_extensible_schemas",
+                           "le_host_other_include_context_calls", "emu_be_grid_probes", "emu_be_grid_signed_nonstandard_decodes_judged", "emu_be_std_calls", "emu_extensible_schemas",
                            "emu_signed_nonstandard_leaves", "emu_be_opt_calls:both", "emu_be_opt_calls:big",
                            "positive_control_emulated_le_code_wrong_wire", "positive_control_emulated_opt_little_wrong_wire"],
     )
